@@ -9,8 +9,8 @@ import corecheck
 import runlib
 import tlc
 
-NAMEPOOLS = [['La', 'Lb', 'Lc', 'Ld', 'Le'], ['Zeta', 'alpha', 'Beta', '_x', 'm10'],
-             ['m9', 'm10', 'M', 'a_', 'a0']]
+NAMEPOOLS = [['La', 'Lb', 'Lc', 'Ld', 'Le', 'Lf'], ['Zeta', 'alpha', 'Beta', '_x', 'm10', 'Aux'],
+             ['m9', 'm10', 'M', 'a_', 'a0', 'Z9']]
 UNIT = 'zope.testrunner.layer.UnitTests'
 
 
@@ -71,6 +71,17 @@ def run(chk, tier, seed, replay=None):
     graphs = [g for g in corecheck.export_graphs(chk, 4) if g['n'] >= 1]
     if tier == 'quick':
         graphs = [g for g in graphs if g['n'] <= 3] + rng.sample([g for g in graphs if g['n'] == 4], 25)
+    # beyond the exhaustive family: random DAGs with ordered bases on 5 and 6
+    # layers (diamonds with extra bases need 5)
+    def random_dag(n):
+        bases = []
+        for i in range(n):
+            cand = list(range(1, i + 1))
+            rng.shuffle(cand)
+            bases.append(cand[:rng.choice([0, 1, 1, 2, 2, 3])] if cand else [])
+        return {'n': n, 'bases': bases}
+    big = [random_dag(rng.choice([5, 5, 6])) for _ in range(120 if tier == 'quick' else 4000)]
+    graphs = graphs + big
     jobs, recs = [], {}
     k = 0
     for g in graphs:
